@@ -84,3 +84,12 @@ Definition row_name (r : row) : string :=
   match r with Cmd n _ _ | Deleg n _ _ _ | Other n _ | Unknown n _ => n end.
 Definition kvrow_name (r : kvrow) : string :=
   match r with KV n _ _ _ _ | KVEach n _ _ _ _ _ | KVDeleg n _ _ _ | KVUnknown n _ => n end.
+
+(* clientmanager.go / clustermanager.go: how the go-redis client of an address comes to be *)
+Inductive clientrow :=
+| ClientNew (fn manager key ctor ty : string)
+            (fresh : bool)                       (* the options are a literal &red.ty{...} written at the call, inside the
+                                                    create function: each client owns the options it was created with *)
+            (fields : list (string * string))    (* option field |-> expression over the wrapper instance r *)
+            (hooks rest : list string)           (* hooks added; the other statements of the create function *)
+| ClientUnknown (fn reason : string).
